@@ -112,18 +112,19 @@ func (g ABCIGenesis) Spec() GenesisSpec {
 
 // abciDriver generates and executes steps on a chain, recording the concrete history.
 type abciDriver struct {
-	t        *rapid.T
-	c        *Chain
-	gen      ABCIGenesis
-	hist     ConcreteHistory
-	log      []string
-	freshNo  int
-	created  []int // indices of FreshAcc that became vesting accounts
-	propIDs  []uint64
-	accepted map[string]int // module -> accepted txs
-	rejected int
-	passed   int
-	sigData  int
+	t         *rapid.T
+	c         *Chain
+	gen       ABCIGenesis
+	hist      ConcreteHistory
+	log       []string
+	freshNo   int
+	created   []int // indices of FreshAcc that became vesting accounts
+	propIDs   []uint64
+	accepted  map[string]int // module -> accepted txs
+	rejected  int
+	passed    int
+	sigData   int
+	zeroStart int
 	// afterBegin, when set, runs once on the open block's state right after BeginBlock
 	afterBegin func(c *Chain)
 }
@@ -238,6 +239,11 @@ func (d *abciDriver) genTx(label string) plannedTx {
 			n.BaseNs = d.c.hdr.Time.UnixNano()
 			n.FirstID = cur
 			p, _ := n.Build()
+			if rapid.IntRange(0, 4).Draw(t, label+"_zeroStart") == 0 {
+				// start_time left unset in the proposal: a valid message (validation does not look at it)
+				p.StartTime = time.Time{}
+				d.zeroStart++
+			}
 			if rapid.Bool().Draw(t, label+"_full") {
 				inner = &mintertypes.MsgUpdateParams{Authority: GovAuthority(), MintDenom: Denom, StartTime: p.StartTime, Minters: p.Minters}
 			} else {
